@@ -660,7 +660,8 @@ namespace mustache {
     bool EntityManager::isEntityValid(Entity entity) const noexcept {
         const auto id = entity.id();  // it is ok to get id for no-valid entity, null id will be returned
         if (entity.isNull() || entity.worldId() != this_world_id_ ||
-            !entities_.has(id) || entities_[id].version() != entity.version()) {
+            !entities_.has(id) || entities_[id].version() != entity.version() ||
+            entities_[id].id() != id) { // a free slot stores the next free id and the NEXT version of its id
             return false;
         }
         return true;
